@@ -55,6 +55,7 @@ pub fn generate(tier: Tier, rng: &mut Rng, sink: &mut dyn FnMut(RtCase)) {
     gen_rand(&mut g);
     gen_wide(&mut g);
     gen_burst(&mut g);
+    gen_slow(&mut g);
     gen_conflict(&mut g);
     gen_sexh(&mut g);
     gen_srand(&mut g);
@@ -826,6 +827,134 @@ fn gen_burst(g: &mut Gen) {
                 drop(run);
                 let _ = n;
                 g.emit(family, &ops, Body::S(cfg, evs));
+            }
+        }
+    }
+}
+
+// ---------------------------------------------------------------------------------------------
+// slow: one slow function holds back successors on several layers; when it finally returns (or,
+// with a limit, while roots are still unpulled) more functions become ready at once than any
+// layer of the graph is wide
+// ---------------------------------------------------------------------------------------------
+
+/// chain c0 -> .. -> c(k-1), slow node s = k, targets k+1 .. k+m each after s and after one chain
+/// node, `b` extra independent roots; returns (n, edges, s).
+fn slow_graph(k: usize, m: usize, b: usize, mirrored: bool) -> (usize, Vec<(usize, usize)>, usize) {
+    let mut e = Vec::new();
+    for i in 1..k {
+        e.push((i - 1, i));
+    }
+    let s = k;
+    for j in 0..m {
+        let t = k + 1 + j;
+        e.push((s, t));
+        e.push((j % k, t));
+    }
+    let n = k + 1 + m + b;
+    if mirrored {
+        e = e.into_iter().map(|(a, c)| (c, a)).collect();
+    }
+    (n, e, s)
+}
+
+/// Like `continue_run` with a random choice, but never completes a function of `avoid` while
+/// another one is in flight.
+fn continue_run_avoid(
+    rng: &mut Rng,
+    g: &mut FnGraph<Fun>,
+    n: usize,
+    cfg: &CallCfg,
+    avoid: &[usize],
+    evs: &mut Vec<CallEv>,
+) {
+    let mut run = CallRun::new(gref(g, cfg.mutable), cfg);
+    for e in evs.iter() {
+        if run.ended() {
+            break;
+        }
+        run.apply(e);
+    }
+    let cap = evs.len() + 4 * n + 8;
+    while evs.len() < cap && !run.ended() && run.status() == Status::Pending {
+        let in_flight = run.in_flight();
+        let e = if run.flag() {
+            ev(CallEvKind::Settle)
+        } else if in_flight.is_empty() {
+            break;
+        } else {
+            let pref: Vec<usize> = in_flight.iter().copied().filter(|i| !avoid.contains(i)).collect();
+            let pool = if pref.is_empty() { &in_flight } else { &pref };
+            ev(CallEvKind::Complete(pool[rng.below(pool.len())], true))
+        };
+        run.apply(&e);
+        evs.push(e);
+    }
+    run.finish();
+}
+
+fn gen_slow(g: &mut Gen) {
+    let shapes: &[(usize, usize, usize)] = match g.tier {
+        Tier::Quick => &[(2, 3, 0), (3, 4, 1), (2, 3, 2), (4, 6, 0)],
+        Tier::Thorough => &[(2, 3, 0), (3, 4, 1), (2, 3, 2), (4, 6, 0), (3, 7, 3), (5, 9, 2), (2, 12, 4)],
+    };
+    for &(k, m, b) in shapes {
+        for mirrored in [false, true] {
+            let (n, edges, s) = slow_graph(k, m, b, mirrored);
+            let ops = plain_ops(n, &edges);
+            let mut graph = must_build(&ops);
+            // in the mirrored graph the targets are the roots: hold back the chain end instead
+            let avoid: Vec<usize> = if mirrored { vec![s, 0] } else { vec![s] };
+            for api in [Api::ForEach, Api::TryForEach, Api::Fold] {
+                for lim in [0usize, 1, 2] {
+                    if api == Api::Fold && lim != 0 {
+                        continue;
+                    }
+                    for rev in [false, true] {
+                        let mut cfg = CallCfg::plain(api);
+                        cfg.lim = lim;
+                        cfg.rev = rev;
+                        cfg.with = rev;
+                        cfg.mutable = g.rng.chance(1, 2);
+                        let mut evs = vec![ev(CallEvKind::Settle)];
+                        continue_run_avoid(&mut *g.rng, &mut graph, n, &cfg, &avoid, &mut evs);
+                        g.emit("slow", &ops, Body::X(cfg, evs));
+                    }
+                }
+            }
+            // stream: keep the slow function's FnRef until nothing else is held
+            for rev in [false, true] {
+                let cfg = StreamCfg {
+                    rev,
+                    int: false,
+                    strat: Strat::Non,
+                };
+                let mut run = StreamRun::new(&graph, &cfg);
+                let mut evs = Vec::new();
+                let cap = 8 * n + 20;
+                while evs.len() < cap && !run.stopped() {
+                    loop {
+                        run.apply(&SEv::Next);
+                        evs.push(SEv::Next);
+                        if run.last_pending() || run.finished() || run.stopped() || evs.len() >= cap {
+                            break;
+                        }
+                    }
+                    let held = run.held_ids();
+                    if held.is_empty() {
+                        break;
+                    }
+                    let pref: Vec<usize> = held.iter().copied().filter(|i| !avoid.contains(i)).collect();
+                    let pool = if pref.is_empty() { held.clone() } else { pref };
+                    // drop all preferred ones without polling in between
+                    for i in pool {
+                        run.apply(&SEv::Drop(i));
+                        evs.push(SEv::Drop(i));
+                    }
+                }
+                run.finish();
+                drop(run);
+                g.emit("slow-stream", &ops, Body::S(cfg, evs));
             }
         }
     }
